@@ -58,8 +58,8 @@ def fp_hunks(fp):
     if fp['kind'] == 'M':
         return [hunk_text(h) for h in fp['hunks']]
     if fp['kind'] == 'C':
-        return [create_hunk(fp['to'])]
-    return [delete_hunk(fp['from'])]
+        return [create_hunk(fp['to'])] if fp['to'] else [b'@@ -0,0 +0,0 @@\n']
+    return [delete_hunk(fp['from'])] if fp['from'] else [b'@@ -0,0 +0,0 @@\n']
 
 
 def name(p, pre):
@@ -69,6 +69,11 @@ def name(p, pre):
 def render_fp(fp, pre=('a', 'b')):
     o = fp['old'] if fp['old'] != 'NULL' else fp['new']
     n = fp['new'] if fp['new'] != 'NULL' else fp['old']
+    if fp['kind'] == 'C' and not fp['to']:
+        # git's creation of a zero-length file: header only
+        return b'diff --git ' + name(n, pre[0]) + b' ' + name(n, pre[1]) + b'\nnew file mode 100' + (fp['nmode'] if fp['nmode'] != 'none' else '644').encode() + b'\nindex 0000000..e69de29\n'
+    if fp['kind'] == 'D' and not fp['from']:
+        return b'diff --git ' + name(o, pre[0]) + b' ' + name(o, pre[1]) + b'\ndeleted file mode 100644\nindex e69de29..0000000\n'
     out = [b'diff --git ' + name(o, pre[0]) + b' ' + name(n, pre[1]) + b'\n']
     if fp['ren']:
         out.append(b'rename from ' + o.encode() + b'\nrename to ' + n.encode() + b'\n')
